@@ -17,7 +17,7 @@ pub open spec fn range_valid(lower: int, upper: int, spacing: int) -> bool {
     &&& (spacing >= 32768 ==> lower == -((443636int / spacing) * spacing) && upper == (443636int / spacing) * spacing)
 }
 
-//@ fn state/position.rs validate_tick_range_for_whirlpool -> r
+//@ fn state/position.rs validate_tick_range_for_whirlpool -> r canary
     requires whirlpool.data.tick_spacing > 0,
     ensures
         r is Ok <==> range_valid(tick_lower_index as int, tick_upper_index as int, whirlpool.data.tick_spacing as int),
@@ -28,7 +28,7 @@ pub open spec fn range_valid(lower: int, upper: int, spacing: int) -> bool {
 //@ end
 
 impl Position {
-//@ fn state/position.rs open_position in=/^impl Position \{/ -> r
+//@ fn state/position.rs open_position in=/^impl Position \{/ -> r canary
     requires whirlpool.data.tick_spacing > 0,
     ensures
         r is Ok <==> range_valid(tick_lower_index as int, tick_upper_index as int, whirlpool.data.tick_spacing as int),
@@ -50,7 +50,7 @@ impl Position {
 //@ end
 
 /// re-ranging: only an empty position, only to a different valid range, with all growth checkpoints reset
-//@ fn state/position.rs reset_position_range in=/^impl Position \{/ -> r
+//@ fn state/position.rs reset_position_range in=/^impl Position \{/ -> r canary
     requires whirlpool.data.tick_spacing > 0,
     ensures
         !old(self).empty() ==> r == err::<()>(ErrorCode::ClosePositionNotEmpty) && *final(self) == *old(self),
@@ -166,14 +166,14 @@ impl PositionBundle {
 //@ inject before /let bit = bitmap & mask;/
         proof { lemma_flip_bit(bitmap, bitmap_offset as u8, bitmap_offset as u8); assert(mask == 1u8 << (bitmap_offset as u8)); }
 //@ end
-//@ fn state/position_bundle.rs open_bundled_position in=/^impl PositionBundle \{/ -> r
+//@ fn state/position_bundle.rs open_bundled_position in=/^impl PositionBundle \{/ -> r canary
     ensures
         r is Ok <==> (bundle_index < 256 && !bundle_open(old(self).position_bitmap, bundle_index as int)),
         r is Ok ==> (forall|j: int| 0 <= j < 256 ==> #[trigger] bundle_open(final(self).position_bitmap, j) == (j == bundle_index || bundle_open(old(self).position_bitmap, j))),
         r is Err ==> *final(self) == *old(self),
         final(self).position_bundle_mint == old(self).position_bundle_mint,
 //@ end
-//@ fn state/position_bundle.rs close_bundled_position in=/^impl PositionBundle \{/ -> r
+//@ fn state/position_bundle.rs close_bundled_position in=/^impl PositionBundle \{/ -> r canary
     ensures
         r is Ok <==> (bundle_index < 256 && bundle_open(old(self).position_bitmap, bundle_index as int)),
         r is Ok ==> (forall|j: int| 0 <= j < 256 ==> #[trigger] bundle_open(final(self).position_bitmap, j) == (j != bundle_index && bundle_open(old(self).position_bitmap, j))),
@@ -193,7 +193,7 @@ impl PositionBundle {
 }
 
 impl LockConfig {
-//@ fn state/lock_config.rs initialize in=/^impl LockConfig \{/ -> r
+//@ fn state/lock_config.rs initialize in=/^impl LockConfig \{/ -> r canary
     ensures r is Ok, final(self).position == position, final(self).position_owner == position_owner, final(self).whirlpool == whirlpool,
         final(self).locked_timestamp == locked_timestamp, final(self).lock_type == LockTypeLabel::Permanent,
 //@ end
